@@ -356,6 +356,7 @@ pub fn run(ctx: &mut Ctx) {
         }
     }
     live_icmp(ctx);
+    wire_ttl(ctx);
 }
 
 // ---- the real IcmpForwarder on raw sockets (loopback), its waiter table against the Lean table model ----
@@ -595,5 +596,188 @@ fn live_icmp(ctx: &mut Ctx) {
     }
     unsafe {
         libc::close(inj);
+    }
+}
+
+// ---- the echo request as it leaves the endpoint: TTL / hop limit seen by an independent raw socket ----
+
+fn sniffer(v6: bool) -> Option<i32> {
+    unsafe {
+        let fd = if v6 {
+            libc::socket(libc::AF_INET6, libc::SOCK_RAW, libc::IPPROTO_ICMPV6)
+        } else {
+            libc::socket(libc::AF_INET, libc::SOCK_RAW, libc::IPPROTO_ICMP)
+        };
+        if fd < 0 {
+            return None;
+        }
+        if v6 {
+            let on: libc::c_int = 1;
+            if libc::setsockopt(fd, libc::IPPROTO_IPV6, libc::IPV6_RECVHOPLIMIT, &on as *const _ as *const libc::c_void, 4) != 0 {
+                libc::close(fd);
+                return None;
+            }
+        }
+        Some(fd)
+    }
+}
+
+/// one packet, without waiting: (ICMP message, TTL / hop limit it arrived with)
+fn sniff_once(fd: i32, v6: bool) -> Option<(Vec<u8>, u8)> {
+    unsafe {
+        let mut buf = [0u8; 4096];
+        let mut control = [0u64; 32];
+        let mut iov = libc::iovec { iov_base: buf.as_mut_ptr() as *mut libc::c_void, iov_len: buf.len() };
+        let mut msg: libc::msghdr = std::mem::zeroed();
+        msg.msg_iov = &mut iov;
+        msg.msg_iovlen = 1;
+        msg.msg_control = control.as_mut_ptr() as *mut libc::c_void;
+        msg.msg_controllen = std::mem::size_of_val(&control) as _;
+        let n = libc::recvmsg(fd, &mut msg, libc::MSG_DONTWAIT);
+        if n <= 0 {
+            return None;
+        }
+        let packet = &buf[..n as usize];
+        if !v6 {
+            let ihl = ((packet[0] & 0x0f) as usize) * 4;
+            if packet.len() < ihl {
+                return None;
+            }
+            return Some((packet[ihl..].to_vec(), packet[8]));
+        }
+        let mut hop: Option<i32> = None;
+        let mut cmsg = libc::CMSG_FIRSTHDR(&msg);
+        while !cmsg.is_null() {
+            if (*cmsg).cmsg_level == libc::IPPROTO_IPV6 && (*cmsg).cmsg_type == libc::IPV6_HOPLIMIT {
+                hop = Some(*(libc::CMSG_DATA(cmsg) as *const libc::c_int));
+            }
+            cmsg = libc::CMSG_NXTHDR(&msg, cmsg);
+        }
+        hop.map(|h| (packet.to_vec(), h as u8))
+    }
+}
+
+/// a global-scope / ULA IPv6 address of this machine and its interface (/proc/net/if_inet6)
+fn own_ipv6_address() -> Option<(std::net::Ipv6Addr, String)> {
+    let table = std::fs::read_to_string("/proc/net/if_inet6").ok()?;
+    table.lines().find_map(|line| {
+        let f: Vec<&str> = line.split_whitespace().collect();
+        if f.len() < 6 || f[3] != "00" {
+            return None;
+        }
+        let a = u128::from_str_radix(f[0], 16).ok()?;
+        Some((std::net::Ipv6Addr::from(a), f[5].to_string()))
+    })
+}
+
+/// 7.3 records with every kind of TTL through the real decoder, the real `IcmpSink::write` and the real raw
+/// sockets (real clock); a second raw socket sees the echo request on the wire with the TTL (IPv4 header) /
+/// hop limit (IPV6_RECVHOPLIMIT) it carries. The model answers with `outgoing (parseRequest record)`.
+fn wire_ttl(ctx: &mut Ctx) {
+    use std::time::Duration;
+    use trusttunnel::settings::*;
+    use trusttunnel::shutdown::Shutdown;
+    use trusttunnel::verif::vicmp;
+    let mut targets: Vec<(IpAddr, String)> = vec![("127.0.0.1".parse().unwrap(), "lo".to_string())];
+    match own_ipv6_address() {
+        Some((a, ifn)) => targets.push((IpAddr::V6(a), ifn)),
+        None => {
+            ctx.stat("wire_no_own_ipv6_address");
+            ctx.notes.push("this machine has no global / ULA IPv6 address: the hop limit of ICMPv6 echo requests was not observed".into());
+        }
+    }
+    let id_base = (std::process::id() as u16).wrapping_mul(193) | 0x2000;
+    let ttls: Vec<u8> = if ctx.thorough() { (1..=255u8).collect() } else { vec![1, 2, 7, 63, 64, 65, 128, 200, 255] };
+    for (ti, (dst, ifn)) in targets.iter().enumerate() {
+        let v6 = dst.is_ipv6();
+        let fd = match sniffer(v6) {
+            Some(fd) => fd,
+            None => {
+                ctx.stat("raw_socket_unavailable");
+                ctx.notes.push("raw ICMP sockets are not permitted here: the TTL on the wire was not observed".into());
+                return;
+            }
+        };
+        let settings = Settings::builder()
+            .listen_address(("127.0.0.1", 1))
+            .unwrap()
+            .listen_protocols(ListenProtocolSettings { http1: Some(Http1Settings::builder().build()), http2: None, quic: None })
+            .ipv6_available(true)
+            .icmp(IcmpSettings::builder().interface_name(ifn.as_str()).request_timeout(Duration::from_secs(3)).build().unwrap())
+            .build()
+            .unwrap();
+        let hosts = TlsHostsSettings::builder()
+            .main_hosts(vec![TlsHostInfo { hostname: "localhost".into(), cert_chain_path: FIXTURE_PEM.into(), private_key_path: FIXTURE_PEM.into(), allowed_sni: vec![] }])
+            .build()
+            .unwrap();
+        let core = trusttunnel::core::Core::new(settings, None, hosts, Shutdown::new()).unwrap();
+        let rt = tokio::runtime::Builder::new_current_thread().enable_all().build().unwrap();
+        let ttls2 = ttls.clone();
+        let dst2 = *dst;
+        let sizes: Vec<u16> = ttls.iter().map(|_| *ctx.rng.pick(&[0u16, 8, 24, 56])).collect();
+        let res: Result<Vec<(String, String)>, String> = rt.block_on(async move {
+            let mut v = match vicmp::spawn(&core, 1) {
+                Some(Ok(v)) => v,
+                Some(Err(e)) => return Err(format!("unavailable: {}", e)),
+                None => return Err("unavailable: no forwarder".into()),
+            };
+            tokio::time::sleep(Duration::from_millis(30)).await;
+            if let Some(e) = v.listen_ended() {
+                return Err(format!("unavailable: listen() ended: {}", e));
+            }
+            let mut rows = vec![];
+            for (k, ttl) in ttls2.iter().enumerate() {
+                let id = id_base.wrapping_add(ti as u16);
+                let seq = k as u16;
+                let mut rec = id.to_be_bytes().to_vec();
+                crate::c06::put_ip16(&mut rec, &dst2);
+                rec.extend_from_slice(&seq.to_be_bytes());
+                rec.push(*ttl);
+                rec.extend_from_slice(&sizes[k].to_be_bytes());
+                let (st, _wire) = v.clients[0].request(rec.clone()).await;
+                if st != "sent" {
+                    return Err(format!("request not sent: {}", st));
+                }
+                let want_type = if v6 { 128 } else { 8 };
+                let mut seen: Option<(Vec<u8>, u8)> = None;
+                for _ in 0..300 {
+                    while let Some((p, hop)) = sniff_once(fd, v6) {
+                        if p.len() >= 8 && p[0] == want_type && p[4..6] == id.to_be_bytes() && p[6..8] == seq.to_be_bytes() && seen.is_none() {
+                            seen = Some((p, hop));
+                        }
+                    }
+                    if seen.is_some() {
+                        break;
+                    }
+                    tokio::time::sleep(Duration::from_millis(5)).await;
+                }
+                let ans = match seen {
+                    Some((p, hop)) => format!(
+                        "hop={} type={} id={} seq={} len={}",
+                        hop, p[0], u16::from_be_bytes([p[4], p[5]]), u16::from_be_bytes([p[6], p[7]]), p.len() - 8
+                    ),
+                    None => "not-seen".to_string(),
+                };
+                rows.push((format!("c11 wire {}", hex(&rec)), ans));
+                let _ = v.clients[0].take();
+            }
+            Ok(rows)
+        });
+        unsafe {
+            libc::close(fd);
+        }
+        match res {
+            Ok(rows) => {
+                for (q, a) in rows {
+                    ctx.emit(&q, &a);
+                    ctx.stat(if v6 { "wire_ttl_ipv6" } else { "wire_ttl_ipv4" });
+                }
+            }
+            Err(e) if e.starts_with("unavailable") => {
+                ctx.stat("raw_socket_unavailable");
+                ctx.notes.push(format!("TTL on the wire not observed ({}): {}", if v6 { "IPv6" } else { "IPv4" }, e));
+            }
+            Err(e) => ctx.oracle_failure("wire_ttl", &e),
+        }
     }
 }
